@@ -191,22 +191,48 @@ Definition parse_int_literal (s : ustr) : result fexpr :=
              else Ok (FInt (if neg then - z else z)%Z)
        end.
 
-(* Parser.parse_float_literal *)
+(* the significant digits of a digit string (zeros stripped at both ends) and how many trailing
+   zeros were dropped *)
+Fixpoint drop_zeros (s : ustr) : ustr :=
+  match s with
+  | c :: s' => if N.eqb c 48 then drop_zeros s' else s
+  | [] => []
+  end.
+
+Definition sig_digits (ds : ustr) : ustr * nat :=
+  let a := drop_zeros ds in
+  let b := rev (drop_zeros (rev a)) in
+  (b, length a - length b).
+
+(* the float  (-)0.d1..dn * 10^(n + zexp)  as an exact rational, lowest power of ten *)
+Definition mk_float (neg : bool) (ds : ustr) (zexp : Z) : result fexpr :=
+  let m := dec_value ds in
+  let m := if neg then (- m)%Z else m in
+  if Z.leb 0 zexp then Ok (FFloat (mkNum true (m * pow10 (Z.to_nat zexp)) 1))
+  else match pow10 (Z.to_nat (- zexp)) with
+       | Zpos p => Ok (FFloat (mkNum true m p))
+       | _ => Err EUnsupported
+       end.
+
+(* Parser.parse_float_literal: float(text).  Modelled (exactly, as the rational the decimal text
+   denotes) for at most 15 significant digits and a normalised decimal exponent pt
+   (value = 0.d1..dn * 10^pt) between -290 and 300; a value of 10^309 or more is inf in the code
+   (a syntax error); zero is zero whatever the exponent; everything else is outside the model. *)
 Definition parse_float_literal (s : ustr) : result fexpr :=
   match split_number s with
   | None => Err EUnsupported
   | Some (neg, ip, fp, ex) =>
-      if Z.leb 400 ex then syntax_error
-      else if Nat.ltb 15 (length ip + length fp) || Z.ltb 20 ex || Z.ltb ex (-20) then Err EUnsupported
-      else
-        let mant := dec_value (ip ++ fp) in
-        let e10 := (ex - Z.of_nat (length fp))%Z in
-        let mant := if neg then (- mant)%Z else mant in
-        if Z.leb 0 e10 then Ok (FFloat (mkNum true (mant * pow10 (Z.to_nat e10)) 1))
-        else match pow10 (Z.to_nat (- e10)) with
-             | Zpos p => Ok (FFloat (mkNum true mant p))
-             | _ => Err EUnsupported
-             end
+      let '(ds, tz) := sig_digits (ip ++ fp) in
+      match ds with
+      | [] => Ok (FFloat (mkNum true 0 1))
+      | _ =>
+          let nd := Z.of_nat (length ds) in
+          let zexp := (Z.of_nat tz + ex - Z.of_nat (length fp))%Z in
+          let pt := (nd + zexp)%Z in
+          if Z.leb 310 pt then syntax_error
+          else if Z.ltb 15 nd || Z.ltb 300 pt || Z.ltb pt (-290) then Err EUnsupported
+          else mk_float neg ds zexp
+      end
   end.
 
 Definition flags_of (s : ustr) : reflags :=
